@@ -43,6 +43,13 @@ func (t *Trace) Emit(e Ev) {
 	t.mu.Unlock()
 }
 
+// Sync flushes buffered events to the file (used before an expected crash of the process).
+func (t *Trace) Sync() {
+	t.mu.Lock()
+	_ = t.w.Flush()
+	t.mu.Unlock()
+}
+
 func (t *Trace) Close() error {
 	t.mu.Lock()
 	defer t.mu.Unlock()
